@@ -415,8 +415,11 @@ def judge_entries(res, tree, entries, form, case, stage, excluded_patterns=(), m
             res.count("position:" + (a.tags[0] if a.tags else "plain"))
             if a.name in have[a.kind]:
                 continue
+            mp = match_position(a.path)
             if a.tags:
                 sig = "missed-access:" + a.tags[0]
+            elif mp is not None:
+                sig = "missed-access:" + mp + ("" if c.ckind in ("function", "async-function") else ":in:" + c.ckind)
             elif c.ckind in ("function", "async-function"):
                 sig = "missed-access:other:" + "/".join(a.path[-2:])
             else:
@@ -428,6 +431,21 @@ def judge_entries(res, tree, entries, form, case, stage, excluded_patterns=(), m
                                                "path": list(a.path), "tags": list(a.tags)},
                                    "reported": {k: sorted(v)[:40] for k, v in have.items()}})
     return judged
+
+
+def match_position(path):
+    """`match-pattern:<load>:under:<pattern classes above it>` for an access that is an expression a case
+    pattern evaluates (value pattern / class of a class pattern / mapping key), else None. Purely
+    syntactic: computed from the access's position in the source."""
+    idx = max((i for i, p in enumerate(path) if p == "match_case.pattern"), default=None)
+    if idx is None or idx + 1 >= len(path):
+        return None
+    inner = [p.split(".")[0] for p in path[idx + 1:]]
+    if not all(x.startswith("Match") for x in inner):
+        return None
+    wrappers = sorted({x[5:].lower() for x in inner[:-1]})
+    last = re.sub(r"\[\d+\]$", "", path[-1])
+    return f"match-pattern:{last}:under:{'+'.join(wrappers) or 'top'}"
 
 
 def entries_by_name(pairs):
@@ -611,16 +629,20 @@ UNIT_CURATED = [
 # ------------------------------------------------------------------ in-process stage (real S2+S4 vs model, then the oracle)
 
 
-def run_unit_stage(res, rng, n, model, stage="unit"):
+def run_unit_stage(res, rng, n, model, stage="unit", unit_gen=None, curated=None):
+    """`unit_gen`: the UnitGen (sub)class the modules come from; `curated`: hand-written modules run first."""
     from props import filegen, filelib
+
+    unit_gen = unit_gen or UnitGen
+    curated = UNIT_CURATED if curated is None else curated
 
     project = filelib.make_project()
     cases = []
     try:
-        work = [("target.py", s) for s in UNIT_CURATED]
+        work = [("target.py", s) for s in curated]
         for i in range(n):
             target = rng.choice(["target.py", "target.py", "lp/mod_u.py"])
-            work.append((target, UnitGen(rng).module()))
+            work.append((target, unit_gen(rng).module()))
         for target, src in work:
             try:
                 c = filelib.run_case(project, target, src, excluded=filegen.EXCLUDE_PATTERNS)
@@ -688,8 +710,9 @@ def _cli(project, args, hashseed=0):
     return p.returncode, doc, p.stderr[-600:]
 
 
-def gen_cli_project(rng, i):
+def gen_cli_project(rng, i, unit_gen=None):
     """(files: rel path -> source, target rel path, followed: module name -> rel path)."""
+    UnitGen = unit_gen or globals()["UnitGen"]  # noqa: N806
     layout = rng.choice(["flat", "flat", "package"])
     imp_rel, imp_mod = ("c01imp.py", "c01imp") if layout == "flat" else ("c01pkg/inner.py", "c01pkg.inner")
     ig = UnitGen(rng, prefix="i")
@@ -774,20 +797,20 @@ def _judge_project(res, files, target, followed, runner, how, stage):
         judge_entries(res, trees[target], dict(rdoc), "cli-results", dict(case, file=target), stage + ":results")
 
 
-def run_project_stage(res, rng, n_inproc, n_cli):
+def run_project_stage(res, rng, n_inproc, n_cli, unit_gen=None, stages=("project", "cli")):
     """Two-file projects (target + followed import, flat or in a package) through the whole
     pipeline: `-o ir` (IR of the target and of each followed module) and `-o results` (the final
     per-function object); in-process for all of them, through the real CLI in a subprocess for the
     first `n_cli`."""
     for i in range(n_inproc):
-        files, target, followed = gen_cli_project(rng, i)
+        files, target, followed = gen_cli_project(rng, i, unit_gen)
         tmp = Path(tempfile.mkdtemp(prefix="rattr-c01proj-"))
         try:
             for rel, text in files.items():
                 (tmp / rel).parent.mkdir(parents=True, exist_ok=True)
                 (tmp / rel).write_text(text)
-            _judge_project(res, files, target, followed, lambda a: _inproc(tmp, a), "in-process rattr.__main__.main", "project")
+            _judge_project(res, files, target, followed, lambda a: _inproc(tmp, a), "in-process rattr.__main__.main", stages[0])
             if i < n_cli:
-                _judge_project(res, files, target, followed, lambda a: _cli(tmp, a), "python -m rattr (subprocess)", "cli")
+                _judge_project(res, files, target, followed, lambda a: _cli(tmp, a), "python -m rattr (subprocess)", stages[1])
         finally:
             shutil.rmtree(tmp, ignore_errors=True)
